@@ -228,6 +228,24 @@ def _dom_match(tier, seed):
     yield dict(args=[np.array(["ab", "b"], dtype="U2"), np.array(["abc", "ab", "bb"], dtype="U5"), True])
     yield dict(args=[np.array([1.5, 2.0], dtype="f4"), np.array([1.5000001, 2.0, 1.5], dtype="f8"), False])
     yield dict(args=[np.array(["a", "b", "a"]), np.array(["a"]), False])
+    # densely packed integer keys spanning most of the range of a narrow type, each array in its own integer type
+    for _ in range(40 if tier == "quick" else 800):
+        t1, t2 = rng.choice(["i1", "u1", "i2", "u2", "i4", "i8"]), rng.choice(["i1", "u1", "i2", "u2", "i4", "i8"])
+        i1, i2 = np.iinfo(t1), np.iinfo(t2)
+        lo = rng.choice([i1.min, max(i1.min, -100), max(i1.min, 0), max(i1.min, min(i1.max - 300, 300))])
+        span = rng.choice([20, 200, 250, 40000])
+        hi = min(i1.max, lo + span)
+        keys = list(range(lo, hi + 1))
+        if len(keys) > 400:
+            keys = keys[:: len(keys) // 300]
+        rng.shuffle(keys)
+        a1 = keys[: rng.randint(max(1, len(keys) * 3 // 4), len(keys))]
+        cand = [k for k in keys if i2.min <= k <= i2.max] + [i2.min, i2.max, 0, 28 if i2.max >= 28 else 0]
+        a2 = [rng.choice(cand) for _ in range(rng.randint(1, 40))]
+        pre = rng.random() < 0.3
+        if pre:
+            a1 = sorted(a1)
+        yield dict(args=[np.array(a1, dtype=t1), np.array(a2, dtype=t2), pre])
 
 
 @domain("esutil.numpy_util.match_multi")
